@@ -46,9 +46,12 @@ def _registry():
 
 
 def gen_unit(args):
-  unit, repo = args
+  unit, repo = args[0], args[1]
+  hints = args[2] if len(args) > 2 else None
   try:
     eng = Engine(_registry(), Sources(repo))
+    if hints:
+      eng.anchor_hints = {unit: hints}
     res = eng.verify_unit(unit)
     obs = []
     for ob in res.obligations:
@@ -60,11 +63,12 @@ def gen_unit(args):
     return dict(unit=unit, error=res.error, cover=res.cover, paths=res.paths, file=res.file,
                 line=res.line, hash=res.source_hash, dropped=res.dropped, inlined=res.inlined,
                 externs=res.externs, contracts=res.contracts, gen_time=res.gen_time, obligations=obs,
-                feas_calls=eng.feas_calls, stmts=eng.stmts_seen, degraded=getattr(res, 'degraded', []), anchor_drift=getattr(res, 'anchor_drift', []))
+                feas_calls=eng.feas_calls, stmts=eng.stmts_seen, degraded=getattr(res, 'degraded', []), anchor_drift=getattr(res, 'anchor_drift', []),
+                anchor_lines=getattr(res, 'anchor_lines', {}))
   except Exception as e:   # engine crash: undecided, never a violation
     return dict(unit=unit, error='engine crash: %s\n%s' % (e, traceback.format_exc()[-1500:]), obligations=[],
                 cover=None, paths=0, file=None, line=None, hash=None, dropped=[], inlined=[], externs=[],
-                contracts=[], gen_time=0.0, feas_calls=0, stmts=0, degraded=[], anchor_drift=[])
+                contracts=[], gen_time=0.0, feas_calls=0, stmts=0, degraded=[], anchor_drift=[], anchor_lines={})
 
 
 # z3 configurations tried in order (refutation portfolio).  The quick e-matching configurations get short fixed
@@ -138,6 +142,9 @@ def witness_and_replay(prop, unit, obname, repo, outdir):
   dump it to a replay file and run the replay against the real code."""
   from .witness import extract_witness
   eng = Engine(_registry(), Sources(repo))
+  hints = load_baseline(prop).get(unit, {}).get('anchors')
+  if hints:
+    eng.anchor_hints = {unit: hints}
   res = eng.verify_unit(unit)
   target = None
   for ob in res.obligations:
@@ -223,7 +230,8 @@ def write_baseline(prop, gens):
   os.makedirs(os.path.join(ROOT, 'baseline'), exist_ok=True)
   out = {}
   for g in gens:
-    out[g['unit']] = dict(hash=g['hash'], proved=sorted(set(stable(ob['name']) for ob in g['obligations'] if ob['status'] == 'proved')))
+    out[g['unit']] = dict(hash=g['hash'], proved=sorted(set(stable(ob['name']) for ob in g['obligations'] if ob['status'] == 'proved')),
+                          anchors=g.get('anchor_lines', {}))
   with open(os.path.join(ROOT, 'baseline', prop + '.json'), 'w') as f:
     json.dump(out, f, indent=1, sort_keys=True)
 
@@ -244,7 +252,8 @@ def run_check(prop, tier, repo, jobs, seed, record_baseline=False):
   timeout_ms = 40000 if tier == 'quick' else 120000
   recheck = (tier == 'thorough')
   with cf.ProcessPoolExecutor(max_workers=jobs) as pool:
-    gens = list(pool.map(gen_unit, [(u, repo) for u in units]))
+    base0 = load_baseline(prop)
+    gens = list(pool.map(gen_unit, [(u, repo, base0.get(u, {}).get('anchors')) for u in units]))
     todo = []
     for g in gens:
       for ob in g['obligations']:
